@@ -350,8 +350,35 @@ def trace(fn: ast.AST, resolve=None, max_depth: int = 2) -> List[Event]:
             return None, False
 
         def expr_events(e: ast.AST, conds, protected, target=None, loops=()):
-            # calls inside the expression, innermost first, in source order
+            # calls inside the expression, innermost first, in source order; a call inside a conditional expression or behind a
+            # short-circuit operator runs under that condition (`f(x) if c else y`, `c and f(x)`)
+            inner: Dict[int, list] = {}
+
+            def mark(n: ast.AST, extra: list):
+                if isinstance(n, ast.Call):
+                    inner[id(n)] = extra
+                if isinstance(n, ast.IfExp):
+                    mark(n.test, extra)
+                    mark(n.body, extra + [(n.test, True, subst)])
+                    mark(n.orelse, extra + [(n.test, False, subst)])
+                    return
+                if isinstance(n, ast.BoolOp) and len(n.values) >= 2:
+                    acc = list(extra)
+                    for i, v in enumerate(n.values):
+                        mark(v, acc)
+                        acc = acc + [(v, isinstance(n.op, ast.And), subst)]
+                    return
+                if isinstance(n, (ast.Lambda, ast.ListComp, ast.SetComp, ast.DictComp, ast.GeneratorExp)):
+                    for ch in ast.walk(n):
+                        if isinstance(ch, ast.Call):
+                            inner.setdefault(id(ch), extra)
+                    return
+                for ch in ast.iter_child_nodes(n):
+                    mark(ch, extra)
+            mark(e, [])
+            outer_conds = conds
             for c in sorted([x for x in ast.walk(e) if isinstance(x, ast.Call)], key=lambda x: (x.lineno, x.col_offset)):
+                conds = list(outer_conds) + inner.get(id(c), [])
                 d, is_method = callee_of(c)
                 if d is not None and depth < max_depth and d not in stack:
                     params = [a.arg for a in d.args.posonlyargs + d.args.args]
@@ -368,6 +395,7 @@ def trace(fn: ast.AST, resolve=None, max_depth: int = 2) -> List[Event]:
                     run(d, conds, protected, s2, depth + 1, stack + [d], target if c is e else None, loops)
                 else:
                     events.append(Event("call", c, conds, protected, subst, f, depth, loops=loops))
+            conds = outer_conds
             for w in ast.walk(e):
                 if isinstance(w, ast.NamedExpr):
                     events.append(Event("assign", w, conds, protected, subst, f, depth, target=ast.unparse(w.target), value=w.value, loops=loops))
